@@ -337,3 +337,14 @@ for p in ["C06", "C01"]:
 for p in ["C03", "C04", "C05"]:
     CHECKS[p]["harnesses"].append(H_AE_FAULTS)
 CHECKS["C02"]["harnesses"].append(H_HEARTBEAT)
+
+H_CAND_TIMEOUT = {"fn": "vh_candidate_timeout", "what": "an election round ended by the election timer with nobody answering: transfer privilege reset, isolated pre-vote round keeps the term", "bounds": "2 voters", "covers": ["timeout.prevote-round", "timeout.real-election-round"]}
+H_LEASE_LOOP = {"fn": "vh_lease_loop", "what": "leaderLoop with the lease timer due and 0-2 client applies queued, contacts older than the lease: the lease check must run on every select order", "bounds": "2 voters, one log shape", "covers": ["leaseloop.end"]}
+H_TRANSFER = {"fn": "vh_leadership_transfer", "what": "the leadershipTransferCh case of leaderLoop with its helper goroutines to quiescence; helper timers elapse at once or only when nothing else can run; TimeoutNow succeeds or fails; target named or picked",
+              "bounds": "2 voters, target caught up", "covers": ["transfer.reported-error", "transfer.end"]}
+CHECKS["C14"]["harnesses"].append(H_CAND_TIMEOUT)
+CHECKS["C13"]["harnesses"].append(H_LEASE_LOOP)
+CHECKS["C17"]["harnesses"].append(H_TRANSFER)
+CHECKS["C12"]["harnesses"].append(H_CAND)
+CHECKS["C10"]["harnesses"].append(H_INSTALL_F)
+CHECKS["C10"]["explanation"] += " Also: installSnapshot's durable snapshot record (what a restart reads back) carries the request's (LastLogIndex, LastLogTerm)."
